@@ -155,3 +155,19 @@ reg("C20",
     level_text="prom_sums_bytes, prom_sums_histogram, prom_failures, prom_failure_children and prom_perm are proved in Coq for every observation sequence (unbounded) about a Gallina model of Metrics.Observe; tied to the Go code on every run by gathering a real registry and comparing with the extracted model and with the reference sums.",
     technique="Coq induction over the observation sequence; differential correspondence on gathered metric families",
     timeout={"quick": 600, "thorough": 3000})
+
+reg("C01",
+    rule="constant pacer: single calls on a boundary lattice of (Freq, Per, elapsed, hits) incl. 0, +-1, Per+-1, "
+         "2^31, 2^62, MaxInt64, negatives, hits near the schedule and near MaxUint64; closed loops in virtual time "
+         "(10..400 calls, every 400th 20000) for dividing, non-dividing and above-1-per-ns rates with no, rare and "
+         "frequent stalls; non-trivial = positive Freq and Per",
+    clauses={1: "Pace panicked", 2: "zero frequency/unit does not mean unlimited rate", 3: "negative frequency/unit does not stop the attack",
+             4: "released hit puts the count more than one hit above the schedule", 5: "positive wait although the count is behind the schedule",
+             6: "wait wrapped around (instant outside int64)", 7: "wait overshoots the schedule by more than the 1ns quantisation",
+             20: "pacer panicked in the closed loop", 21: "closed-loop count exceeds schedule + 1 at a release instant",
+             22: "release instants decrease", 23: "stall-free closed-loop count falls more than one hit (+1ns/hit) behind the schedule"},
+    assumptions=["linear and sine pacers use float64 arithmetic: see DESIGN.md section 5 C01 for their partial treatment",
+                 "elapsed in [0, 2^63), hits in [0, 2^64) for the contract theorems (const_dom); the no-panic / sign theorems hold for all integers"],
+    level_text="closed_loop_upper (generic, all pacers/stall histories/lengths), const_no_panic, const_neg_stops, const_zero_unlimited, const_overflow_stops, const_contract, const_positive_wait, const_lower are proved in Coq over Z with the uint64/int64 wrap-arounds of the Go code written out; the model is compared bit-exactly with ConstantPacer.Pace on every run, and the property's clauses are decided on every observed call and closed-loop trajectory by a checker defined in Coq.",
+    technique="Coq proof over exact integer model (nia/lia), closed-loop induction; bit-exact differential correspondence",
+    timeout={"quick": 600, "thorough": 3000})
